@@ -39,3 +39,41 @@ Definition boxes_sepb (t : Q) (rects : list rect) (A B : list nat) : bool :=
 Definition boxes_sep (t : Q) (rects : list rect) (A B : list nat) : Prop :=
   members_right_of DX t rects A B \/ members_right_of DX t rects B A \/
   members_right_of DY t rects A B \/ members_right_of DY t rects B A.
+
+(* ------------------------------------------------------------------ fixed-rectangle clusters
+   RectangularCluster(rectIndex): a cluster whose boundary IS an existing rectangle (cluster.cpp:224).
+   RectangularCluster::generateFixedRectangleConstraints (cluster.cpp:300-329) pushes four cola::SeparationConstraints, all
+   with equality = true, in the order X pair, Y pair:
+       (XDIM, clusterVarId, rect, halfWidth, true)   (XDIM, rect, clusterVarId + 1, halfWidth, true)
+       (YDIM, clusterVarId, rect, halfHeight, true)  (YDIM, rect, clusterVarId + 1, halfHeight, true)
+   A cola::SeparationConstraint generates its vpsc constraint only in its own dimension, so in dimension d the solver sees the
+   pair of that dimension, in this order.  cv = clusterVarId, ri = m_rectangle_index. *)
+Definition gen_fixed_rect (d : dim) (cv ri : nat) (rects : list rect) : list sepc :=
+  let half := Qred (rlen d (nth ri rects rect0) / 2) in
+  [ mkSep cv ri half true;             (* boundaryVar + half == rect centre *)
+    mkSep ri (S cv) half true ].       (* rect centre + half == boundaryVar+1 *)
+
+(* what the list looks like when the LAST equality is only an inequality (documents what the equality flag is for) *)
+Definition gen_fixed_rect_weak_max (d : dim) (cv ri : nat) (rects : list rect) : list sepc :=
+  let half := Qred (rlen d (nth ri rects rect0) / 2) in
+  [ mkSep cv ri half true; mkSep ri (S cv) half false ].
+
+(* declarative: the cluster box [lo, hi] is exactly the extent of rectangle r in dimension d *)
+Definition box_is_rect (d : dim) (lo hi : Q) (r : rect) : Prop := lo == rmin d r /\ hi == rmax d r.
+(* ... up to t *)
+Definition box_is_rect_eps (t : Q) (d : dim) (lo hi : Q) (r : rect) : Prop :=
+  lo <= rmin d r + t /\ rmin d r <= lo + t /\ hi <= rmax d r + t /\ rmax d r <= hi + t.
+
+(* member rectangle m, inflated by the padding, lies inside the container rectangle c in dimension d, up to t *)
+Definition inside_rect_d (d : dim) (t : Q) (pad : box) (c m : rect) : Prop :=
+  rmin d c <= rmin d m - bmin d pad + t /\ rmax d m + bmax d pad <= rmax d c + t.
+Definition inside_rect (t : Q) (pad : box) (c m : rect) : Prop := inside_rect_d DX t pad c m /\ inside_rect_d DY t pad c m.
+Definition members_inside_rect (t : Q) (pad : box) (rects : list rect) (ci : nat) (members : list nat) : Prop :=
+  forall m, In m members -> inside_rect t pad (nth ci rects rect0) (nth m rects rect0).
+
+(* executable checker for the V-runs *)
+Definition inside_rect_db (d : dim) (t : Q) (pad : box) (c m : rect) : bool :=
+  Qleb (rmin d c) (rmin d m - bmin d pad + t) && Qleb (rmax d m + bmax d pad) (rmax d c + t).
+Definition inside_rectb (t : Q) (pad : box) (c m : rect) : bool := inside_rect_db DX t pad c m && inside_rect_db DY t pad c m.
+Definition members_inside_rectb (t : Q) (pad : box) (rects : list rect) (ci : nat) (members : list nat) : bool :=
+  forallb (fun m => inside_rectb t pad (nth ci rects rect0) (nth m rects rect0)) members.
